@@ -4,7 +4,7 @@
 //   (1 data)                  NewNALU().UnmarshalBinary(data), then MarshalBinary
 //                             -> (0 ref type payload bytes) | (1 1)
 //   (2 ref type payload)      NALU.MarshalBinary, then UnmarshalBinary of the result
-//                             -> (0 bytes ref' type' payload')
+//                             -> (0 bytes ref' type' payload' Size())
 //   (3 lsm1 (nalu...))        AVCSample.MarshalBinary, then UnmarshalBinary on a fresh sample
 //                             -> (0 bytes <sdec>)
 //   (4 lsm1 data)             AVCSample.UnmarshalBinary(data) [, MarshalBinary when ok]
@@ -408,7 +408,10 @@ func vC12Run(c vSx) (r vC12Res) {
 			return
 		}
 		m := vC12From(u)
-		r.obs = vOk(vB(b), vI(m.ref), vI(m.typ), vB(m.data))
+		r.obs = vOk(vB(b), vI(m.ref), vI(m.typ), vB(m.data), vI(u.Size()))
+		if u.Size() != len(b) || u.NALUHeader.Size() != 1 {
+			r.bad("nalu-size", fmt.Sprintf("Size() = %d for %d marshalled bytes", u.Size(), len(b)))
+		}
 		if n.inRange() {
 			r.nontrivial = true
 			if !bytes.Equal(b, n.iso()) {
